@@ -1193,24 +1193,52 @@ def lookup_values(e, out):
     lookup of eval_name_test_try_compile_predicates() evaluates once instead of once per instance"""
     if not isinstance(e, (tuple, list)):
         return out
-    if e and e[0] == "step" and e[4][0] == "name" and e[5]:
-        p = e[5][0]
-        if p[0] == "cmp" and p[1] == "=" and p[2][0] == "step" and p[2][1] == ("ctx",) and not p[2][2] and not p[2][5] and \
-                ((p[2][3] == "child" and p[2][4][0] == "name") or (p[2][3] == "self" and p[2][4][0] == "any")):
-            out.append(p[3])
+    if e and e[0] == "step" and e[4][0] == "name":
+        for p in e[5]:                                    # one predicate per key
+            if p[0] == "cmp" and p[1] == "=" and p[2][0] == "step" and p[2][1] == ("ctx",) and not p[2][2] and not p[2][5] and \
+                    ((p[2][3] == "child" and p[2][4][0] == "name") or (p[2][3] == "self" and p[2][4][0] == "any")):
+                out.append(p[3])
+            else:
+                break
     for x in e:
         lookup_values(x, out)
     return out
 
 
+def plain_path(e):
+    """location path (or union of them) from the context node, the root or current(), steps without predicates and
+    without the axes in document order of siblings: the values for which the listed defects of the lookup are known"""
+    k = e[0]
+    if k in ("ctx", "root"):
+        return True
+    if k == "fn":
+        return e[1] == "current" and not e[2]
+    if k == "union":
+        return plain_path(e[1]) and plain_path(e[2])
+    if k == "step":
+        return not e[5] and e[3] not in ("following", "following-sibling", "preceding", "preceding-sibling") and plain_path(e[1])
+    return False
+
+
+def plain_value(e):
+    """plain paths, literals and function calls on them (not position() / last(): repaired in a599f2f)"""
+    if e[0] in ("lit", "num"):
+        return True
+    if e[0] == "fn" and e[1] not in ("position", "last", "current"):
+        return all(plain_value(a) for a in e[2])
+    return plain_path(e)
+
+
 def fastpath_tag(text):
-    """which listed defect of the hash lookup can explain a deviating answer of this expression"""
+    """which listed defect of the hash lookup can explain a deviating answer of this expression: a key predicate whose
+    value is a plain location path, relative to the list instance (xpath-fastpath-context-dependent-rhs) or not
+    (xpath-fastpath-nodeset-rhs-as-string)"""
     try:
         vals = lookup_values(parse(text), [])
     except Exception:
         return None
     op = fastpath_open()
-    vals = [v for v in vals if v[0] not in ("lit", "num")]
+    vals = [v for v in vals if plain_value(v) and v[0] not in ("lit", "num")]
     if any(uses_ctx(v) for v in vals) and FASTPATH_TAGS[0] in op:
         return FASTPATH_TAGS[0]
     if any(not uses_ctx(v) for v in vals) and FASTPATH_TAGS[1] in op:
